@@ -68,8 +68,20 @@ def top_ops(cond):
 
 
 def fpzero_test(n):
-    """`std::fpclassify(X) ==/!= FP_ZERO` -> (X node, True if 'is zero')"""
+    """a test whether a number is zero, in any of its spellings: `std::fpclassify(X) ==/!= FP_ZERO`, `X ==/!= 0`, `!X`, `X` (as a condition),
+    `std::abs(X) > 0`, `0 < std::abs(X)` -> (X node, True if the test holds when X is zero)"""
     n = A.strip(n)
+    neg = False
+    while n.get("k") == "UnaryOperator" and n.get("op") == "!":
+        n, neg = A.strip(n["c"][0]), not neg
+
+    def is_zero_lit(c):
+        c = A.strip(c)
+        return c.get("k") in ("IntegerLiteral", "FloatingLiteral") and c.get("value") == 0
+
+    def numeric(c):
+        t = (A.strip(c).get("ctype") or "").replace("const ", "")
+        return t in ("float", "double", "long double")
     if n.get("k") == "BinaryOperator" and n["op"] in ("==", "!="):
         for a, b in ((n["c"][0], n["c"][1]), (n["c"][1], n["c"][0])):
             ca = A.strip(a)
@@ -77,7 +89,16 @@ def fpzero_test(n):
                 cb = A.strip(b)
                 if cb.get("k") == "IntegerLiteral" and cb.get("value") == 2 or cb.get("const") == 2 or \
                         "FP_ZERO" in (cb.get("text") or "") or A.show(cb) in ("2", "FP_ZERO"):
-                    return ca["args"][0], n["op"] == "=="
+                    return ca["args"][0], (n["op"] == "==") != neg
+            if is_zero_lit(b) and numeric(a) and not is_zero_lit(a):
+                return ca, (n["op"] == "==") != neg
+    if n.get("k") == "BinaryOperator" and n["op"] in (">", "<"):
+        big, small = (n["c"][0], n["c"][1]) if n["op"] == ">" else (n["c"][1], n["c"][0])
+        cb = A.strip(big)
+        if is_zero_lit(small) and cb.get("k") == "CallExpr" and (cb.get("callee") or "").split("::")[-1] in ("abs", "fabs") and cb.get("args"):
+            return cb["args"][0], neg
+    if numeric(n) and n.get("k") in ("DeclRefExpr", "MemberExpr"):
+        return n, neg           # `if (X)` is true when X is non-zero
     return None
 
 
@@ -229,11 +250,17 @@ def run(chk, prog):
             else:
                 conj.append(n)
         split(x["cond"])
-        tests = [fpzero_test(c) for c in conj if not string_compares(c)]
-        A.require(len(tests) == 1 and tests[0] is not None, "save: substitution condition for %s is not a single fpclassify test" % name)
+        others = [c for c in conj if not string_compares(c)]
+        tests = [fpzero_test(c) for c in others]
+        if len(tests) != 1 or tests[0] is None or not A.this_field(tests[0][0]):
+            # the substituted value is written under a condition that is not a test of one option value: it cannot be shown to
+            # coincide with "the run did not use this option" (which main decides on an option value)
+            chk.fail("R4", A.loc(sv, x), "writer substitutes '%s=%s' under the condition `%s`, which is not a zero test of one option's value: "
+                     "it does not imply that the run ignored %s" % (name, const, " && ".join(A.show(c) for c in others)[:200], name),
+                     "save:subst:%s:condition-not-a-value-test" % name)
+            continue
         wnode, w_iszero = tests[0]
         wfield = A.this_field(wnode)
-        A.require(wfield, "save: substitution condition does not test a member")
         # main: variable initialised from the getter of the option's field, and the branch on the getter of wfield
         var = {}
         for st in A.walk(mainf["body"]):
@@ -242,12 +269,12 @@ def run(chk, prog):
                     if d.get("k") == "VarDecl" and "init" in d:
                         calls = [y for y in A.walk(d["init"]) if y.get("k") == "CXXMemberCallExpr" and
                                  (y.get("callee") or "").startswith("vfps::ProgramOptions::get")]
-                        if len(calls) == 1:
+                        if len(calls) == 1 and A.strip(d["init"]).get("id") == calls[0]["id"]:
                             var.setdefault(getters.get(calls[0]["callee"].split("::")[-1]), []).append(d)
-        ovar = var.get(cfg[name].field, [])
-        wvar = var.get(wfield, [])
-        A.require(len(ovar) == 1 and len(wvar) == 1, "main: variables holding %s / %s not unique" % (cfg[name].field, wfield))
-        ovar, wvar = ovar[0], wvar[0]
+        ovars = var.get(cfg[name].field, [])
+        wvars = var.get(wfield, [])
+        A.require(len(ovars) >= 1 and len(wvars) >= 1, "main: variables holding %s / %s not found" % (cfg[name].field, wfield))
+        odecls, wdecls = {d_["decl"] for d_ in ovars}, {d_["decl"] for d_ in wvars}
         uses = []
         for st in A.walk(mainf["body"]):
             if st["k"] == "IfStmt":
@@ -255,13 +282,13 @@ def run(chk, prog):
                 if ft is None:
                     continue
                 d = A.declref(ft[0])
-                if d is None or d["decl"] != wvar["decl"]:
+                if d is None or d["decl"] not in wdecls:
                     continue
                 for branch, pol in ((st["then"], True), (st.get("else"), False)):
                     if branch is None:
                         continue
-                    reads = [y for y in A.walk(branch) if y["k"] == "DeclRefExpr" and y["decl"] == ovar["decl"]]
-                    writes = [l for _, l, op, r in A.assignments_in(branch) if (A.declref(l) or {}).get("decl") == ovar["decl"] and op == "="]
+                    reads = [y for y in A.walk(branch) if y["k"] == "DeclRefExpr" and y["decl"] in odecls]
+                    writes = [l for _, l, op, r in A.assignments_in(branch) if (A.declref(l) or {}).get("decl") in odecls and op == "="]
                     wr_ids = {A.declref(l)["id"] for l in writes}
                     pure_reads = [y for y in reads if y["id"] not in wr_ids]
                     if pure_reads:
